@@ -46,6 +46,69 @@ Theorem C05_three_unsew_topology `{Sig} : forall E n ks l c w cnt w1 cnt1,
 Proof. exact three_unsew3_topology. Qed.
 Print Assumptions C05_three_unsew_topology.
 
+(** Data clause for coordinates through the 3D 2-sew and 2-unsew (programs regenerated from dim3/sews/two.rs), on every
+    store whose images are in range ([rng3], implied by [wf3]): the vertex identified by the orbit minimum ([is_vid3],
+    over the 3D vertex orbit) of the map after the link carries the lawful merge of the former values, the former
+    identifiers are emptied, every other coordinate slot is untouched ([merge_effect]); both ends = two merges in
+    sequence; the 2-unsew is the mirror image with the split law ([split_effect]). *)
+From Coq Require Import Lia.
+From HC Require Import Stm.ProgFacts Map2.Wf2 Map2.Wf2Proofs Map2.Orbit2Proofs Map2.SewData Map3.Orbit3Proofs Map3.SewData3.
+Theorem C05_two_sew_vertex_data_left `{Sig} : forall E n ks l r c w cnt w' cnt',
+  dom3_ok E n -> rng3 n w -> l <> 0 -> l < n -> r <> 0 -> r < n -> beta w 1 l = 0 -> beta w 1 r <> 0 ->
+  run E (two_sew3 n ks l r) c w cnt = (Done tt, w', cnt') ->
+  exists i1 i2 i',
+    is_vid3 n w l i1 /\ is_vid3 n w (beta w 1 r) i2 /\ is_vid3 n (set2 w l r) l i' /\ merge_effect w w' i1 i2 i'.
+Proof. exact two_sew3_vertex_data_left. Qed.
+Print Assumptions C05_two_sew_vertex_data_left.
+
+Theorem C05_two_sew_vertex_data_right `{Sig} : forall E n ks l r c w cnt w' cnt',
+  dom3_ok E n -> rng3 n w -> l <> 0 -> l < n -> r <> 0 -> r < n -> beta w 1 l <> 0 -> beta w 1 r = 0 ->
+  run E (two_sew3 n ks l r) c w cnt = (Done tt, w', cnt') ->
+  exists i1 i2 i',
+    is_vid3 n w (beta w 1 l) i1 /\ is_vid3 n w r i2 /\ is_vid3 n (set2 w l r) r i' /\ merge_effect w w' i1 i2 i'.
+Proof. exact two_sew3_vertex_data_right. Qed.
+Print Assumptions C05_two_sew_vertex_data_right.
+
+Theorem C05_two_sew_vertex_data_both `{Sig} : forall E n ks l r c w cnt w' cnt',
+  dom3_ok E n -> rng3 n w -> l <> 0 -> l < n -> r <> 0 -> r < n -> beta w 1 l <> 0 -> beta w 1 r <> 0 ->
+  run E (two_sew3 n ks l r) c w cnt = (Done tt, w', cnt') ->
+  exists i1 i2 i3 i4 iL iR,
+    is_vid3 n w l i1 /\ is_vid3 n w (beta w 1 r) i2 /\ is_vid3 n w (beta w 1 l) i3 /\ is_vid3 n w r i4 /\
+    is_vid3 n (set2 w l r) l iL /\ is_vid3 n (set2 w l r) r iR /\
+    exists wm, merge_effect w wm i1 i2 iL /\ merge_effect wm w' i3 i4 iR.
+Proof. exact two_sew3_vertex_data_both. Qed.
+Print Assumptions C05_two_sew_vertex_data_both.
+
+Theorem C05_two_unsew_vertex_data_left `{Sig} : forall E n ks l c w cnt w' cnt',
+  dom3_ok E n -> rng3 n w -> l <> 0 -> l < n -> beta w 2 l <> 0 -> beta w 1 l = 0 -> beta w 1 (beta w 2 l) <> 0 ->
+  run E (two_unsew3 n ks l) c w cnt = (Done tt, w', cnt') ->
+  let r := beta w 2 l in let w1 := clr2 w l r in
+  exists i0 il ir,
+    is_vid3 n w l i0 /\ is_vid3 n w1 l il /\ is_vid3 n w1 (beta w 1 r) ir /\ split_effect w w' i0 il ir.
+Proof. exact two_unsew3_vertex_data_left. Qed.
+Print Assumptions C05_two_unsew_vertex_data_left.
+
+Theorem C05_two_unsew_vertex_data_right `{Sig} : forall E n ks l c w cnt w' cnt',
+  dom3_ok E n -> rng3 n w -> l <> 0 -> l < n -> beta w 2 l <> 0 -> beta w 1 l <> 0 -> beta w 1 (beta w 2 l) = 0 ->
+  run E (two_unsew3 n ks l) c w cnt = (Done tt, w', cnt') ->
+  let r := beta w 2 l in let w1 := clr2 w l r in
+  exists i0 il ir,
+    is_vid3 n w r i0 /\ is_vid3 n w1 (beta w 1 l) il /\ is_vid3 n w1 r ir /\ split_effect w w' i0 il ir.
+Proof. exact two_unsew3_vertex_data_right. Qed.
+Print Assumptions C05_two_unsew_vertex_data_right.
+
+Theorem C05_two_unsew_vertex_data_both `{Sig} : forall E n ks l c w cnt w' cnt',
+  dom3_ok E n -> rng3 n w -> l <> 0 -> l < n -> beta w 2 l <> 0 -> beta w 1 l <> 0 -> beta w 1 (beta w 2 l) <> 0 ->
+  run E (two_unsew3 n ks l) c w cnt = (Done tt, w', cnt') ->
+  let r := beta w 2 l in let w1 := clr2 w l r in
+  exists j0 jl jr k0 kl kr,
+    is_vid3 n w l j0 /\ is_vid3 n w r k0 /\
+    is_vid3 n w1 l jl /\ is_vid3 n w1 (beta w 1 r) jr /\ is_vid3 n w1 (beta w 1 l) kl /\ is_vid3 n w1 r kr /\
+    exists wm, split_effect w wm j0 jl jr /\ split_effect wm w' k0 kl kr.
+Proof. exact two_unsew3_vertex_data_both. Qed.
+Print Assumptions C05_two_unsew_vertex_data_both.
+
+
 (** Tie to the source: [two_sew3] / [two_unsew3] are, verbatim, the programs that tools/tr_sews.py regenerates from
     dim3/sews/two.rs on every run (Map3/GenSews3.v). *)
 From HC Require Import Map3.GenSews3 Map3.GenSews3Laws.
